@@ -20,8 +20,10 @@ import (
 	"context"
 	"errors"
 	"fmt"
+	"io"
 	"math/rand"
 	"os"
+	"path/filepath"
 	"runtime"
 	"runtime/debug"
 	"sort"
@@ -32,6 +34,7 @@ import (
 
 	"git.defalsify.org/vise.git/cache"
 	"git.defalsify.org/vise.git/db"
+	fsdb "git.defalsify.org/vise.git/db/fs"
 	memdb "git.defalsify.org/vise.git/db/mem"
 	"git.defalsify.org/vise.git/engine"
 	"git.defalsify.org/vise.git/lang"
@@ -383,11 +386,13 @@ type ccStep struct {
 	Flush   string `json:"flush"`
 	Panic   string `json:"panic,omitempty"`
 	Aliased bool   `json:"aliased,omitempty"`
+	Fin     string `json:"fin,omitempty"` // error of Finish or of loading the stored session afterwards ("" = none)
 	term    string
+	snap    string
 }
 
 func (s ccStep) sresp() string {
-	return fmt.Sprintf("(mkSresp %s %s %s %s)", hx.Bool(s.Cont), s.Exec, hx.S(s.Out), s.Flush)
+	return fmt.Sprintf("(mkSresp %s %s %s %s %s)", hx.Bool(s.Cont), s.Exec, hx.S(s.Out), s.Flush, hx.Bool(s.Fin == ""))
 }
 
 type ccSession struct {
@@ -405,6 +410,78 @@ type ccSession struct {
 	dead      bool
 	steps     []ccStep
 	first     []ccFres // script of this session's entry function (engine.WithFirst); nil: none
+	debug     int      // 0: no; 1: state-debug mode (Config.StateDebug / State.UseDebug); 2: also Config.EngineDebug and an engine debugger
+	fsdir     string   // persisted sessions: "" = a db/mem store of its own, else a db/fs directory (shared with other sessions), a new handle per request
+}
+
+// deployment shape of one run (nil = the plain one)
+type ccExtra struct {
+	debug []int  // per session
+	fs    []bool // per session: persisted over the filesystem directory fsdir
+	fsdir string // concurrent/interleaved run: THE directory; solo runs: every session gets a sub-directory of its own
+}
+
+func (x *ccExtra) apply(s *ccSession, i int, solo bool) error {
+	if x == nil {
+		return nil
+	}
+	if x.debug != nil {
+		s.setDebug(x.debug[i])
+	}
+	if x.fs != nil && x.fs[i] && s.persisted {
+		d := x.fsdir
+		if solo {
+			d = filepath.Join(x.fsdir, fmt.Sprintf("solo%d", i))
+		}
+		if err := os.MkdirAll(d, 0700); err != nil {
+			return err
+		}
+		s.fsdir = d
+	}
+	return nil
+}
+
+// debug mode: the state renders its flags through the package-level state.FlagDebugger
+// (State.String is an eagerly evaluated log argument in engine.exec; SimpleDebug.Break lists the flags)
+func (s *ccSession) setDebug(mode int) {
+	s.debug = mode
+	if mode == 0 {
+		return
+	}
+	s.cfg.StateDebug = true
+	if mode == 2 {
+		s.cfg.EngineDebug = true
+	}
+	if !s.persisted {
+		s.st.UseDebug() // Config.StateDebug reaches the state only through a persister
+		en := engine.NewEngine(s.cfg, s.rs).WithState(s.st).WithMemory(s.ca)
+		if mode == 2 {
+			en = en.WithDebug(engine.NewSimpleDebug(io.Discard))
+		}
+		s.en = en
+	}
+}
+
+func (x *ccExtra) desc() map[string]interface{} {
+	if x == nil {
+		return nil
+	}
+	return map[string]interface{}{"debug": x.debug, "fs": x.fs}
+}
+
+// user flags were given names (state.FlagDebugger.Register) by this process
+var ccRegistered bool
+
+// the store handle of one request
+func (s *ccSession) openStore() (db.Db, error) {
+	if s.fsdir == "" {
+		return s.store, nil
+	}
+	d := fsdb.NewFsDb()
+	if err := d.Connect(context.Background(), s.fsdir); err != nil {
+		return nil, err
+	}
+	return d, nil
 }
 
 // give the session ITS entry function (before the first request).  The function follows the script
@@ -460,8 +537,20 @@ func (s *ccSession) request(in []byte) bool {
 	en := s.en
 	var pe *persist.Persister
 	if s.persisted {
-		pe = persist.NewPersister(s.store)
+		store, err := s.openStore()
+		if err != nil {
+			step.Fin = "open store: " + err.Error()
+			step.Exec, step.Flush = "(OSErr EGen)", "(OSErr EGen)"
+			step.snap = "None"
+			step.term = fmt.Sprintf("(%s, mkEobs false (OSErr EGen) [] (OSErr EGen) None [])", hx.B(in))
+			s.steps = append(s.steps, step)
+			return true
+		}
+		pe = persist.NewPersister(store)
 		en = engine.NewEngine(s.cfg, s.rs).WithPersister(pe)
+		if s.debug == 2 {
+			en = en.WithDebug(engine.NewSimpleDebug(io.Discard))
+		}
 		if s.first != nil {
 			en = en.WithFirst(ccScripted(s.w, "_first", s.first))
 		}
@@ -476,16 +565,25 @@ func (s *ccSession) request(in []byte) bool {
 		step.Flush = ccErrClass(ferr)
 		if s.persisted {
 			// Finish closes the resource; db/mem's Close is a no-op
-			en.Finish(ctx)
+			if err := en.Finish(ctx); err != nil {
+				step.Fin = "finish: " + err.Error()
+			}
 		}
 	})
 	st, ca := s.st, s.ca
 	if s.persisted {
-		pe2 := persist.NewPersister(s.store).WithContent(state.NewState(s.c.FlagCount), cache.NewCache())
-		if lerr := pe2.Load(s.cfg.SessionId); lerr == nil {
-			st, ca = pe2.State, pe2.Memory
-		} else {
-			st, ca = nil, nil
+		st, ca = nil, nil
+		store2, oerr := s.openStore()
+		if oerr == nil {
+			pe2 := persist.NewPersister(store2).WithContent(state.NewState(s.c.FlagCount), cache.NewCache())
+			lerr := pe2.Load(s.cfg.SessionId)
+			if lerr == nil {
+				st, ca = pe2.State, pe2.Memory
+			} else if step.Fin == "" && !panicked {
+				step.Fin = "load: " + lerr.Error()
+			}
+		} else if step.Fin == "" {
+			step.Fin = "open store: " + oerr.Error()
 		}
 		if pe != nil && pe.State != nil && s.sh.overlaps(pe.State.Code) {
 			step.Aliased = true
@@ -508,6 +606,7 @@ func (s *ccSession) request(in []byte) bool {
 	for i, c := range s.w.calls {
 		calls[i] = c.term()
 	}
+	step.snap = snap
 	step.term = fmt.Sprintf("(%s, mkEobs %s %s %s %s %s %s)", hx.B(in), hx.Bool(step.Cont), step.Exec, hx.B(out), step.Flush, snap, hx.List(calls))
 	s.steps = append(s.steps, step)
 	return true
@@ -531,6 +630,21 @@ func (s *ccSession) soloTerm() string {
 		st[i] = x.sresp()
 	}
 	return hx.List(st)
+}
+
+func (s *ccSession) finTerm() string {
+	st := make([]string, len(s.steps))
+	for i, x := range s.steps {
+		st[i] = hx.Bool(x.Fin == "")
+	}
+	return hx.List(st)
+}
+
+func (s *ccSession) finalSnap() string {
+	if len(s.steps) == 0 {
+		return "None"
+	}
+	return s.steps[len(s.steps)-1].snap
 }
 
 func (s *ccSession) aliased() bool {
@@ -792,12 +906,15 @@ type ccRun struct {
 }
 
 // serve the histories alone, one session after the other, on a private copy of the application data
-func ccSolo(g ccGen, pers []bool, firsts [][]ccFres, hist [][][]byte) ([]*ccSession, error) {
+func ccSolo(g ccGen, pers []bool, firsts [][]ccFres, hist [][][]byte, x *ccExtra) ([]*ccSession, error) {
 	var out []*ccSession
 	for i := range hist {
 		sh := ccMakeShared(g.app)
 		s, err := ccNewSession(g.app, g.cfg, sh, i, pers[i])
 		if err != nil {
+			return nil, err
+		}
+		if err := x.apply(s, i, true); err != nil {
 			return nil, err
 		}
 		if firsts != nil {
@@ -814,13 +931,16 @@ func ccSolo(g ccGen, pers []bool, firsts [][]ccFres, hist [][][]byte) ([]*ccSess
 }
 
 // a random interleaving on one goroutine
-func ccInterleaved(r *rand.Rand, g ccGen, pers []bool, firsts [][]ccFres, hist [][][]byte) (*ccRun, error) {
+func ccInterleaved(r *rand.Rand, g ccGen, pers []bool, firsts [][]ccFres, hist [][][]byte, x *ccExtra) (*ccRun, error) {
 	sh := ccMakeShared(g.app)
 	run := &ccRun{}
 	pos := make([]int, len(hist))
 	for i := range hist {
 		s, err := ccNewSession(g.app, g.cfg, sh, i, pers[i])
 		if err != nil {
+			return nil, err
+		}
+		if err := x.apply(s, i, false); err != nil {
 			return nil, err
 		}
 		if firsts != nil {
@@ -849,12 +969,15 @@ func ccInterleaved(r *rand.Rand, g ccGen, pers []bool, firsts [][]ccFres, hist [
 }
 
 // one goroutine per session, started together
-func ccConcurrent(g ccGen, pers []bool, firsts [][]ccFres, hist [][][]byte) (*ccRun, error) {
+func ccConcurrent(g ccGen, pers []bool, firsts [][]ccFres, hist [][][]byte, x *ccExtra) (*ccRun, error) {
 	sh := ccMakeShared(g.app)
 	run := &ccRun{}
 	for i := range hist {
 		s, err := ccNewSession(g.app, g.cfg, sh, i, pers[i])
 		if err != nil {
+			return nil, err
+		}
+		if err := x.apply(s, i, false); err != nil {
 			return nil, err
 		}
 		if firsts != nil {
@@ -914,8 +1037,16 @@ func ccAppCase(kind string, g ccGen, run *ccRun, solo []*ccSession, extra map[st
 	for i, x := range run.sched {
 		sched[i] = fmt.Sprint(x)
 	}
-	term := fmt.Sprintf("(CApp (mkAcase %s %s (rep %d %d) %s %s %s %s %s %s))", g.app.term(), g.cfg.term(), ccSentinel, ccSpare,
-		hx.List(ss), hx.List(sched), hx.List(so), hx.BList(run.final), hx.Bool(aliased), hx.Bool(run.other))
+	fins := make([]string, len(run.sessions))
+	sofin := make([]string, len(solo))
+	for i, s := range run.sessions {
+		fins[i] = s.finTerm()
+	}
+	for i, s := range solo {
+		sofin[i] = s.finalSnap()
+	}
+	term := fmt.Sprintf("(CApp (mkAcase %s %s (rep %d %d) %s %s %s %s %s %s %s %s))", g.app.term(), g.cfg.term(), ccSentinel, ccSpare,
+		hx.List(ss), hx.List(sched), hx.List(so), hx.BList(run.final), hx.Bool(aliased), hx.Bool(run.other), hx.List(fins), hx.List(sofin))
 	steps := map[string]interface{}{}
 	for i, s := range run.sessions {
 		steps[fmt.Sprintf("session%d", i)] = s.steps
@@ -939,9 +1070,12 @@ func ccGoMonitor(run *ccRun, solo []*ccSession) bool {
 		}
 		for j := range s.steps {
 			a, b := s.steps[j], solo[i].steps[j]
-			if a.Cont != b.Cont || a.Exec != b.Exec || a.Out != b.Out || a.Flush != b.Flush {
+			if a.Cont != b.Cont || a.Exec != b.Exec || a.Out != b.Out || a.Flush != b.Flush || (a.Fin == "") != (b.Fin == "") {
 				return false
 			}
+		}
+		if s.finalSnap() != solo[i].finalSnap() {
+			return false
 		}
 	}
 	for i, a := range ccMakeSharedInit(run, solo) {
@@ -1305,7 +1439,7 @@ func ccSelftest() (string, map[string]int, error) {
 	if err != nil {
 		return "", nil, err
 	}
-	soloc, err := ccSolo(g, []bool{false, false}, nil, hist)
+	soloc, err := ccSolo(g, []bool{false, false}, nil, hist, nil)
 	if err != nil {
 		return "", nil, err
 	}
@@ -1391,11 +1525,11 @@ func ccRunAlias(o opts) error {
 		}
 		// 40 % of the sessions get an entry function of their own (per-request engines run it on every request)
 		firsts := ccGenFirsts(hx.Rng(o.seed, "alias-first", i), k, g.cfg.FlagCount, 40)
-		run, err := ccInterleaved(r, g, pers, firsts, hist)
+		run, err := ccInterleaved(r, g, pers, firsts, hist, nil)
 		if err != nil {
 			return err
 		}
-		solo, err := ccSolo(g, pers, firsts, hist)
+		solo, err := ccSolo(g, pers, firsts, hist, nil)
 		if err != nil {
 			return err
 		}
@@ -1528,6 +1662,12 @@ func ccRunRace(o opts) error {
 	if o.tier == "thorough" {
 		reps = 10
 	}
+	lastDebug := -1
+	for i := 0; i < o.n; i++ {
+		if i%3 == 1 {
+			lastDebug = i
+		}
+	}
 	for i := 0; i < o.n; i++ {
 		r := hx.Rng(o.seed, "race", i)
 		stop := ccWatchdog(fmt.Sprintf("race case %d (seed %d)", i, o.seed))
@@ -1553,7 +1693,55 @@ func ccRunRace(o opts) error {
 			}
 		}
 		w.Count(fmt.Sprintf("sessions_with_first_%v", nf > 0))
-		solo, err := ccSolo(g, pers, firsts, hist)
+		// deployment shape: every third run in debug mode (all sessions), every third run with the persisted
+		// sessions on ONE filesystem directory (separate handles), the rest plain
+		kind := "app-concurrent"
+		var x *ccExtra
+		rx := hx.Rng(o.seed, "race-shape", i)
+		switch i % 3 {
+		case 1:
+			kind = "app-concurrent-debug"
+			x = &ccExtra{debug: make([]int, k)}
+			for j := range x.debug {
+				x.debug[j] = 1
+				if rx.Intn(3) == 0 {
+					x.debug[j] = 2
+				}
+			}
+			if i == lastDebug && !ccRegistered {
+				// legitimate set-up: names for SOME user flags, registered before any goroutine starts; from here
+				// on the sessions' lookups of these flags hit, all others still miss
+				state.FlagDebugger.Register(8, "CC_USERFLAG_8")
+				state.FlagDebugger.Register(9, "CC_USERFLAG_9")
+				ccRegistered = true
+				w.Count("debug_run_with_registered_flags")
+			}
+		case 2:
+			kind = "app-concurrent-fs"
+			x = &ccExtra{fs: make([]bool, k)}
+			nfs := 0
+			for j := range x.fs {
+				pers[j] = rx.Intn(5) > 0
+				x.fs[j] = pers[j] && rx.Intn(7) > 0
+				if x.fs[j] {
+					nfs++
+				}
+			}
+			w.Count(fmt.Sprintf("fs_sessions_%02d", nfs))
+		}
+		if x != nil && x.fs != nil {
+			x.fsdir = filepath.Join(o.out, fmt.Sprintf("fsrun-%d-solo", i))
+		}
+		// the solo runs are served WITHOUT debug mode (it changes no output): they run first, on this goroutine, and
+		// must not be the ones that look the flags up in state.FlagDebugger for the first time
+		xs := x
+		if x != nil && x.debug != nil {
+			xs = nil
+		}
+		solo, err := ccSolo(g, pers, firsts, hist, xs)
+		if x != nil && x.fs != nil {
+			os.RemoveAll(x.fsdir)
+		}
 		if err != nil {
 			return err
 		}
@@ -1561,7 +1749,16 @@ func ccRunRace(o opts) error {
 		// each time); the case printed is the first run the Go copy of the monitor objects to, else the first
 		var run *ccRun
 		for rep := 0; rep < reps; rep++ {
-			rr, err := ccConcurrent(g, pers, firsts, hist)
+			if x != nil && x.fs != nil {
+				x.fsdir = filepath.Join(o.out, fmt.Sprintf("fsrun-%d-%d", i, rep))
+				if err := os.MkdirAll(x.fsdir, 0700); err != nil {
+					return err
+				}
+			}
+			rr, err := ccConcurrent(g, pers, firsts, hist, x)
+			if x != nil && x.fs != nil {
+				os.RemoveAll(x.fsdir)
+			}
 			if err != nil {
 				return err
 			}
@@ -1575,7 +1772,7 @@ func ccRunRace(o opts) error {
 			}
 		}
 		stop()
-		w.Add(ccAppCase("app-concurrent", g, run, solo, map[string]interface{}{"goroutines": k, "repetitions": reps}))
+		w.Add(ccAppCase(kind, g, run, solo, map[string]interface{}{"goroutines": k, "repetitions": reps, "persisted": pers, "shape": x.desc()}))
 		w.Count(fmt.Sprintf("goroutines_%02d", k))
 		if !ccGoMonitor(run, solo) {
 			w.Count("go_monitor_flagged")
